@@ -21,8 +21,10 @@ var (
 )
 
 func SetFinalizer(obj interface{}, fn interface{}) {
-	if fn == nil {
-		runtime.SetFinalizer(obj, nil)
+	if fn == nil || !Active() {
+		// outside a simulation (the repository's own tests on the instrumented
+		// copy) finalizers are the runtime's business
+		runtime.SetFinalizer(obj, fn)
 		return
 	}
 	noteFinalizer()
